@@ -734,6 +734,9 @@ func Main(setupWorker func()) {
 	skipF := flag.String("skip", "", "comma-separated run keys to skip (internal)")
 	flag.Parse()
 	limitMemory()
+	if d := os.Getenv("SIMCALC_VERIFDIR"); d != "" {
+		VerifDir = d
+	}
 
 	if *list {
 		for _, id := range IDs() {
